@@ -717,6 +717,9 @@ func (p c06) Run(c *core.Ctx, idx int) {
 	h := fnv.New64a()
 	fmt.Fprintf(h, "C06/%d/%d", c.Seed, modID)
 	r := rand.New(rand.NewSource(int64(h.Sum64())))
+	if modID%10 == 5 && idx < half {
+		c06Directed(c, modID/10)
+	}
 	g := &gen6{r: r, style: -1}
 	if modID%8 < 6 {
 		g.style = modID % 8 // one style for the whole module (0..5)
